@@ -182,8 +182,21 @@ Ack(i, src, v, c) ==
             /\ Out(i, "ack", src, c, "done", sess[i].pa)
        ELSE Fail(i, "ack", src, c)
 
+\* the intruder closes the stream of session i (drop of the next message, at any point)
+Drop(i) == Live(i) /\ Fail(i, "drop", 0, FALSE)
+
+\* is there any frame the intruder could deliver to session i in this state?
+CanForge3(i) == CanSh(OwnEph[i], sess[i].pe) /\ CanEA(sess[i].pe, Owner(i))
+CanForge4(i) == CanSh(OwnEph[i], sess[i].pe) /\ CanAK(Owner(i), Target(i))
+CanDeliver(i) ==
+  IF IsReq(i)
+    THEN \/ sess[i].step \in {0, 1}
+         \/ (sess[i].step = 3 /\ ((\E j \in Slots : Sent4(j)) \/ CanForge4(i)))
+    ELSE \/ sess[i].step \in {0, 4}
+         \/ (sess[i].step = 2 /\ ((\E j \in Slots : Sent3(j)) \/ CanForge3(i)))
+
 Next == \E i \in Slots :
-          \/ Start(i)
+          \/ Start(i) \/ Drop(i)
           \/ \E x \in {"e1", "e2", "e3", "ei", "low", "ex"}, c \in BOOLEAN : Hello(i, x, c)
           \/ \E src \in 1..3, c \in BOOLEAN : Auth(i, src, "-", <<"-", 0>>, c)
           \/ \E acct \in Claimable, pf \in PfSrc : Auth(i, 0, acct, pf, FALSE)
